@@ -159,7 +159,7 @@ func (obj *NormalDistribution) SetParameters(parameters Vector) error {
 
 func (obj *NormalDistribution) ImportConfig(config ConfigDistribution, t ScalarType) error {
 
-  if parameters, ok := config.GetParametersAsFloats(); !ok {
+  if parameters, ok := config.GetParametersAsFloats(); !ok || len(parameters) < 2 {
     return fmt.Errorf("invalid config file")
   } else {
     mu    := NewScalar(t, parameters[0])
